@@ -170,7 +170,8 @@ func tableLayout(context *layoutContext, table_ bo.TableBoxITF, bottomSpace pr.F
 				for _, sw := range spannedWidths {
 					width += sw
 				}
-				cell.Width = width
+				// (the borders and padding alone may be wider than the columns)
+				cell.Width = pr.Max(0, width)
 				// The computed height is a minimum
 				cell.ComputedHeight = cell.Height
 				cell.Height = pr.AutoF
@@ -838,7 +839,9 @@ func fixedTableLayout(box *bo.BoxFields) {
 				}
 			}
 			if len(columnsWithoutWidth) != 0 {
-				widthPerColumn := width / pr.Float(len(columnsWithoutWidth))
+				// (not negative, when the spacing inside the span is
+				// larger than the width of the cell)
+				widthPerColumn := pr.Max(0, width/pr.Float(len(columnsWithoutWidth)))
 				for _, j := range columnsWithoutWidth {
 					columnWidths[j] = widthPerColumn
 				}
